@@ -200,24 +200,33 @@ Definition code_point (st : tstate) : Prop :=
 
 Definition blank (c : ascii) : Prop := c = SP \/ c = TAB.
 
+(* cbn does not evaluate is_ws (nat arithmetic) on character literals *)
+Ltac ws_eval :=
+  repeat match goal with
+  | |- context [is_ws (Ascii ?a ?b ?c ?d ?e ?f ?g ?h)] =>
+      let v := eval vm_compute in (is_ws (Ascii a b c d e f g h)) in
+      change (is_ws (Ascii a b c d e f g h)) with v
+  end.
+Ltac crunch := cbn; repeat (progress ws_eval; cbn).
+
 (* after ` //` resp. `//`: both in the comment, or the same diagnostic *)
 Lemma enter_comment st c : code_point st -> blank c ->
   res_rel cmt_eq (run mt cf es st [c; SLASH; SLASH]) (run mt cf es st [SLASH; SLASH]).
 Proof.
   intros ([K|[K|K]] & S & P) Hc; destruct st; cbn in K, S; unfold pend_ok in P; cbn in P; subst.
   - (* nothing pending *)
-    destruct Hc as [-> | ->]; unfold run, step, parse_none, res_rel, cmt_eq, forget_col; cbn; repeat split.
+    destruct Hc as [-> | ->]; unfold run, step, parse_none; crunch; unfold res_rel, cmt_eq, forget_col; cbn; repeat split.
   - (* a keyword is pending: the blank resp. the first slash appends it *)
     destruct s_tstr as [|t0 ts]; [congruence|].
-    destruct Hc as [-> | ->]; unfold run, step, parse_kw_op, parse_none; cbn;
+    destruct Hc as [-> | ->]; unfold run, step, parse_kw_op, parse_none; crunch;
       match goal with |- context [append_token mt KEYWORD ?s] => destruct (append_token mt KEYWORD s) as [s1|] eqn:Ea end;
-      cbn; try reflexivity;
-      pose proof (append_token_shape mt _ _ _ Ea) as (toks & ->); cbn;
-      unfold res_rel, cmt_eq, forget_col; cbn; repeat split.
+      crunch; try reflexivity;
+      pose proof (append_token_shape mt _ _ _ Ea) as (toks & ->); crunch;
+      unfold res_rel, cmt_eq, forget_col; cbn; (split; [reflexivity|split; reflexivity]).
   - (* an operator is pending: the blank appends it; glued, the second slash does *)
     destruct s_tstr as [|t0 ts]; [congruence|]. destruct s_tpos as [tl tc].
-    destruct Hc as [-> | ->]; unfold run, step, parse_kw_op, parse_none, append_token; cbn;
-      unfold res_rel, cmt_eq, forget_col; cbn; repeat split.
+    destruct Hc as [-> | ->]; unfold run, step, parse_kw_op, parse_none, append_token; crunch;
+      unfold res_rel, cmt_eq, forget_col; cbn; (split; [reflexivity|split; reflexivity]).
 Qed.
 
 Lemma run_app' a : forall b st, run mt cf es st (a ++ b) =
